@@ -4,6 +4,7 @@ import (
 	"encoding/gob"
 	"go/ast"
 	"go/token"
+	"sort"
 	"sync"
 )
 
@@ -81,9 +82,24 @@ func prepareFile(file *ast.File) *ast.File {
 	copy := *file
 	file = &copy
 
-	// Clear fields that can be easily reconstructed.
+	// Clear fields that can be easily reconstructed. Comment groups attached to a node (Doc, Comment) are
+	// found again by walking the tree; only the free-floating ones (which may hold directives such as a
+	// go:linkname separated from its function by a blank line) have to be kept.
 	file.Imports = nil
-	file.Comments = nil
+	attached := map[*ast.CommentGroup]bool{}
+	ast.Inspect(file, func(n ast.Node) bool {
+		if cg, ok := n.(*ast.CommentGroup); ok {
+			attached[cg] = true
+		}
+		return true
+	})
+	var floating []*ast.CommentGroup
+	for _, cg := range file.Comments {
+		if !attached[cg] {
+			floating = append(floating, cg)
+		}
+	}
+	file.Comments = floating
 
 	// Clear fields that are deprecated.
 	file.Scope = nil
@@ -104,7 +120,8 @@ func prepareFile(file *ast.File) *ast.File {
 // Imports and Comments fields that were cleared when serializing the file.
 func unpackFile(file *ast.File) {
 	var imports []*ast.ImportSpec
-	var comments []*ast.CommentGroup
+	comments := file.Comments // the free-floating comment groups
+	file.Comments = nil       // not part of the tree walked below
 	ast.Inspect(file, func(n ast.Node) bool {
 		if im, ok := n.(*ast.ImportSpec); ok {
 			imports = append(imports, im)
@@ -114,6 +131,7 @@ func unpackFile(file *ast.File) {
 		}
 		return true
 	})
+	sort.SliceStable(comments, func(i, j int) bool { return comments[i].Pos() < comments[j].Pos() })
 	file.Imports = imports
 	file.Comments = comments
 }
